@@ -18,6 +18,9 @@ REQUIRED_THEOREMS = [
     "C01.initial_idle",
     "C01.pre_dispatch_zero_counterexample",
     "C01.auto_batch_size_ge_one",
+    "C01.sequential_return_correct",
+    "C01.sequential_exactly_once",
+    "C01.sequential_leaves_idle",
 ]
 TRUSTED_EXTRA = [
     "M1 granularity: completion callbacks are atomic and happen at hook points of the caller (configure, compute_batch_size, sleep, consumer "
